@@ -5,6 +5,7 @@ pub mod c08;
 pub mod c10;
 pub mod c11;
 pub mod c12;
+pub mod c13;
 pub mod c14;
 pub mod c15;
 pub mod c16;
@@ -21,6 +22,7 @@ pub fn get(prop: &str) -> Option<&'static dyn Engine> {
         "C10" => &c10::C10,
         "C11" => &c11::C11,
         "C12" => &c12::C12,
+        "C13" => &c13::C13,
         "C14" => &c14::C14,
         "C15" => &c15::C15,
         "C16" => &c16::C16,
